@@ -83,7 +83,32 @@ def build_paths(tier):
                                                                  + txt[c].format(M=STARTS[2])).strip()))
     # consecutive moves / leading fragment
     paths.append(("moves", "M3,-2 M10,1 L7,5 M1,1 M2,2"))
+    # paths assembled from segment objects: a leading subpath without any move (a fragment), of one or two segments
+    for nm in ("line", "arc", "quad", "cubic", "quad-line", "arc+M", "line-line+Mz"):
+        paths.append(("fragment:" + nm, "obj:" + nm))
     return paths
+
+
+def make_path(svg, d):
+    if not d.startswith("obj:"):
+        return svg.Path(d)
+    P = svg.Point
+    k = d[4:]
+    if k == "line":
+        return svg.Path(svg.Line(P(3, -2), P(7, 5)))
+    if k == "arc":
+        return svg.Path(svg.Arc(P(3, -2), 8.5, 3.5, -45, 0, 1, P(7, 5)))
+    if k == "quad":
+        return svg.Path(svg.QuadraticBezier(P(3, -2), P(7, 5), P(-4, 1.5)))
+    if k == "cubic":
+        return svg.Path(svg.CubicBezier(P(3, -2), P(7, 5), P(-4, 1.5), P(11, -6)))
+    if k == "quad-line":
+        return svg.Path(svg.QuadraticBezier(P(3, -2), P(7, 5), P(-4, 1.5)), svg.Line(P(-4, 1.5), P(0, 9)))
+    if k == "arc+M":
+        return svg.Path(svg.Arc(P(3, -2), 8.5, 3.5, -45, 0, 1, P(7, 5))) + "M10,1 L7,5 L-4,1.5"
+    if k == "line-line+Mz":
+        return svg.Path(svg.Line(P(3, -2), P(7, 5)), svg.Line(P(7, 5), P(0, 9))) + "M10,1 l4,0 l0,3 z"
+    raise ValueError(d)
 
 
 MATS = {"R90": (0.0, 1.0, -1.0, 0.0, 0.0, 0.0), "MX": (-1.0, 0.0, 0.0, 1.0, 0.0, 0.0)}
@@ -231,14 +256,14 @@ class Histories(SubCheck):
         out = Outcome()
         svg = self.svg
         d = case["d"]
-        p = svg.Path(d)
+        p = make_path(svg, d)
         nsub = p.count_subpaths()
         hist = case["history"]
         # histories addressing a subpath that does not exist are not cases of this path
         for ev in hist:
             if ev.startswith("sub") and int(ev[3:]) >= nsub:
                 return out
-        model = structure(svg, svg.Path(d))
+        model = structure(svg, make_path(svg, d))
         S = 1.0
         for s in model:
             for k, pts in s["curves"]:
@@ -249,8 +274,9 @@ class Histories(SubCheck):
         drawn = any(s["curves"] for s in model)
         if has_rev and drawn:
             out.nontrivial.append((d, tuple(hist)))
-        nomove = "nomove" in case["name"] or (len(model) > 0 and not model[0].get("moved", True))
-        tags = dict(path=case["name"], d=d, history=hist, nomove=nomove)
+        leading = len(model) > 0 and not model[0].get("moved", True)
+        nomove = "nomove" in case["name"] or leading
+        tags = dict(path=case["name"], d=d, history=hist, nomove=nomove, after_close="nomove" in case["name"], leading_fragment=leading)
         for step, ev in enumerate(hist):
             tg = dict(step=step, event=ev, **tags)
             try:
@@ -302,7 +328,7 @@ class Histories(SubCheck):
                     M = af.inv(MATS[ev[4:]])
                     p *= svg.Matrix(*M)
                     p.reify()
-            orig = svg.Path(d)
+            orig = make_path(svg, d)
             back = structure(svg, p)
             msg = compare_struct(back, structure(svg, orig), tol)
             same_kinds = [type(s).__name__ for s in p] == [type(s).__name__ for s in orig]
@@ -333,6 +359,13 @@ def m_subpath_without_move(d):
     t = d["tags"]
     if not t.get("nomove"):
         return False
+    if not t.get("after_close"):
+        # only a leading fragment: reversing it through a subpath view works; what fails is the whole-path reverse()
+        # (it rebuilds the path from subpaths and needs a move to start the last one).  The failing step, or for the
+        # involution check the history, must contain a whole-path reverse.
+        upto = t.get("history", [])[: t.get("step", len(t.get("history", []))) + 1]
+        if "rev" not in upto:
+            return False
     k = t.get("kind")
     if k == "exception":
         return t.get("exc") == "TypeError"
